@@ -582,4 +582,19 @@ def r8(ctx):
               "formulaic:interaction separator", f"separators used: {sorted(seps)}; FACTOR_MATCHER splits on ':' = {ok_m}")
 
 
-RULES = [("C02.R1", r1), ("C02.R2", r2), ("C02.R3", r3), ("C02.R4", r4), ("C02.R5", r5), ("C02.R6", r6), ("C02.R7", r7), ("C02.R8", r8), ("C02.R9", r9)]
+
+def f1(ctx):
+    """generic same-name parameter forwarding over this property's modules (see shared.generic_forwarding)."""
+    from . import shared as _sh
+    _sh.generic_forwarding(ctx, "C02.F1", _sh.PROPERTY_MODULES["C02"])
+
+
+
+def s1(ctx):
+    """shared mechanisms: the encoding cache never serves an encoding made for another rank mode (= C03.R6); plain names and Python expressions resolve through one search order (= C19.R3)"""
+    from .shared import relabel
+    from . import c03, c19
+    relabel(ctx, "C02.S1", c03.r6, lambda c: c19.r3(c, rule="C02.S1"))
+
+
+RULES = [("C02.R1", r1), ("C02.R2", r2), ("C02.R3", r3), ("C02.R4", r4), ("C02.R5", r5), ("C02.R6", r6), ("C02.R7", r7), ("C02.R8", r8), ("C02.R9", r9), ("C02.F1", f1), ("C02.S1", s1)]
